@@ -611,11 +611,12 @@ fn r_query_c(es: usize, multipart: bool, rc: bool, has_key: bool, nparts: usize,
 		Some(Some((v, cf, n))) => {
 			assert!(live, "U6.R.query.some_only_if_live_and_key_matches");
 			assert!(v.len() == vlen, "U6.R.query.length");
-			let q: usize = kani::any();
-			kani::assume(q < vlen);
-			assert!(v[q] == c.s(hdr + q), "U6.R.query.bytes");
 			assert!(cf == c.compressed, "U6.R.query.compressed_flag");
 			assert!(n == rcv, "U6.R.query.ref_count");
+			let q: usize = kani::any();
+			if q < vlen {
+				assert!(v[q] == c.s(hdr + q), "U6.R.query.bytes");
+			}
 		},
 		Some(None) => assert!(!live, "U6.R.query.none_only_if_dead_or_key_mismatch"),
 		None => assert!(false, "U6.R.query.no_error_on_wellformed_chain"),
